@@ -28,6 +28,7 @@ type vBehav struct {
 	ignoreTerm bool     // only SIGKILL ends it
 	startErr   bool     // Start() fails
 	lines      []string // stdout lines of every attempt
+	dieSecs    int      // after the signal that ends it the command needs that many seconds to exit
 	runSecs    int      // a command that ends by itself first runs for that many seconds
 	latency    int      // 0: exits/dies as soon as it is scheduled; 1: only when nothing else can run; 2: both (choice)
 }
@@ -201,6 +202,9 @@ func (c *vCmd) life() {
 			byStop = true
 		default:
 		}
+	}
+	if byStop && b.dieSecs > 0 {
+		time.Sleep(time.Duration(b.dieSecs) * time.Second)
 	}
 	lat := b.latency
 	if lat == 2 {
